@@ -100,13 +100,57 @@ func clientOK(c string) bool {
 // ---- reference model
 
 type model struct {
-	sent, recvd       int // requests issued / received by the handler
-	rsent, rrecvd     int // responses issued / received by the client
-	closedSend        bool
-	returned          bool
-	retErr            error
+	sent, recvd         int // requests issued / received by the handler
+	rsent, rrecvd       int // responses issued / received by the client
+	closedSend          bool
+	returned            bool
+	retErr              error
 	clientTerm, srvTerm bool
 	big                 int // id of the large request (1..) or 100 + id of the large response; -1 none
+	// bounded buffers (0: none). A Send or CloseSend issued while the buffer of its direction
+	// is full does not return until the peer has taken a message out: the operation is
+	// pending, its side issues nothing else, and the side's next event is its completion.
+	reqCap, resCap int
+	pendC          byte // 0, 'S' or 'C'
+	pendS          bool
+	marker         bool // the end-of-requests marker sits in the request buffer
+	late           int  // Sends issued after the handler returned: each may sit in the buffer for good
+}
+
+func (m *model) reqInflight() int {
+	n := m.sent - m.recvd + m.late
+	if m.marker && !m.srvTerm {
+		n++
+	}
+	return n
+}
+
+func (m *model) resInflight() int { return m.rsent - m.rrecvd }
+
+// pending reports whether the side has an operation that has not returned yet
+func (m *model) pending(side byte) bool {
+	return side == 'c' && m.pendC != 0 || side == 's' && m.pendS
+}
+
+// complete applies the effect of the side's pending operation, which can return now
+func (m *model) complete(side byte) expect {
+	if side == 's' {
+		m.pendS = false
+		m.rsent++
+		return expect{kind: "ok"}
+	}
+	op := m.pendC
+	m.pendC = 0
+	if op == 'C' {
+		m.closedSend, m.marker = true, true
+		return expect{kind: "ok"}
+	}
+	if m.returned {
+		m.late++ // it may have found room just before the handler returned
+		return expect{kind: "ok-or-eof"}
+	}
+	m.sent++
+	return expect{kind: "ok"}
 }
 
 type expect struct {
@@ -127,6 +171,14 @@ func (e expect) String() string {
 
 // enabled reports whether op may be issued now such that it is guaranteed to return
 func (m *model) enabled(side byte, op byte) bool {
+	if side == 'c' && m.pendC != 0 {
+		// a blocked Send also returns once the handler has returned; a blocked CloseSend
+		// waits for room in the buffer
+		return m.reqInflight() < m.reqCap || m.pendC == 'S' && m.returned
+	}
+	if side == 's' && m.pendS {
+		return m.resInflight() < m.resCap
+	}
 	// transports with flow control (gRPC) block a sender while a large message is in
 	// flight: nothing more is issued in that direction until it has been received
 	if m.big >= 1 && m.big < 100 && side == 'c' && (op == 'S' || op == 'C') && m.sent >= m.big && m.recvd < m.big {
@@ -155,12 +207,24 @@ func (m *model) step(side byte, op byte, ret error) expect {
 		}
 		if m.returned {
 			// documented: EOF once the server closed; the client may not have learnt it yet
+			if m.reqCap > 0 && m.reqInflight() >= m.reqCap {
+				return expect{kind: "eof"} // no room and nobody to make any: only the closed server is left to answer
+			}
+			m.late++
 			return expect{kind: "ok-or-eof"}
+		}
+		if m.reqCap > 0 && m.reqInflight() >= m.reqCap {
+			m.pendC = 'S'
+			return expect{kind: "pending"}
 		}
 		m.sent++
 		return expect{kind: "ok"}
 	case side == 'c' && op == 'C':
-		m.closedSend = true
+		if m.reqCap > 0 && m.reqInflight() >= m.reqCap {
+			m.pendC = 'C'
+			return expect{kind: "pending"}
+		}
+		m.closedSend, m.marker = true, true
 		return expect{kind: "ok"}
 	case side == 'c' && op == 'R':
 		if m.rrecvd < m.rsent {
@@ -180,6 +244,10 @@ func (m *model) step(side byte, op byte, ret error) expect {
 		m.srvTerm = true
 		return expect{kind: "eof"}
 	case side == 's' && op == 's':
+		if m.resCap > 0 && m.resInflight() >= m.resCap {
+			m.pendS = true
+			return expect{kind: "pending"}
+		}
 		m.rsent++
 		return expect{kind: "ok"}
 	case side == 's' && op == 'x':
@@ -189,41 +257,57 @@ func (m *model) step(side byte, op byte, ret error) expect {
 	panic("step")
 }
 
-// orders enumerates every feasible merge of the client ops and the handler ops (+ return)
-func orders(sc script) []string {
+// orders enumerates every feasible merge of the client ops and the handler ops (+ return).
+// With bounded buffers an event of a side whose operation is pending is that operation's
+// completion.
+func orders(sc script, reqCap, resCap int) []string {
 	srv := sc.server + "x"
 	var out []string
 	var rec func(ci, si int, m model, acc []byte)
 	rec = func(ci, si int, m model, acc []byte) {
-		if ci == len(sc.client) && si == len(srv) {
+		if ci == len(sc.client) && si == len(srv) && !m.pending('c') && !m.pending('s') {
 			out = append(out, string(acc))
 			return
 		}
-		if ci < len(sc.client) && m.enabled('c', sc.client[ci]) {
+		if m.pending('c') {
+			if m.enabled('c', 0) {
+				m2 := m
+				m2.complete('c')
+				rec(ci, si, m2, append(append([]byte{}, acc...), 'c'))
+			}
+		} else if ci < len(sc.client) && m.enabled('c', sc.client[ci]) {
 			m2 := m
 			m2.step('c', sc.client[ci], retKinds[sc.ret].err)
 			rec(ci+1, si, m2, append(append([]byte{}, acc...), 'c'))
 		}
-		if si < len(srv) && m.enabled('s', srv[si]) {
+		if m.pending('s') {
+			if m.enabled('s', 0) {
+				m2 := m
+				m2.complete('s')
+				rec(ci, si, m2, append(append([]byte{}, acc...), 's'))
+			}
+		} else if si < len(srv) && m.enabled('s', srv[si]) {
 			m2 := m
 			m2.step('s', srv[si], retKinds[sc.ret].err)
 			rec(ci, si+1, m2, append(append([]byte{}, acc...), 's'))
 		}
 	}
-	rec(0, 0, model{big: sc.big}, nil)
+	rec(0, 0, model{big: sc.big, reqCap: reqCap, resCap: resCap}, nil)
 	return out
 }
 
 // ---- transports
 
 type transport struct {
-	name   string
-	server freighter.StreamServer[Req, Res]
-	client freighter.StreamClient[Req, Res]
-	addr   address.Address
-	mu     sync.Mutex
-	cur    *run
-	stop   func()
+	name           string
+	reqCap, resCap int
+	idle           time.Duration // the handler stays idle this long before it returns
+	server         freighter.StreamServer[Req, Res]
+	client         freighter.StreamClient[Req, Res]
+	addr           address.Address
+	mu             sync.Mutex
+	cur            *run
+	stop           func()
 }
 
 type srvCmd struct {
@@ -262,6 +346,9 @@ func (t *transport) bind() {
 				r.results <- opResult{err: s.Send(c.msg)}
 			case 'x':
 				r.results <- opResult{}
+				if t.idle > 0 {
+					time.Sleep(t.idle)
+				}
 				return c.ret
 			}
 		}
@@ -276,14 +363,32 @@ func mockTransport() *transport {
 	return t
 }
 
-func wsTransport() (*transport, error) {
+// mockTight is the in-memory transport with one-message buffers: senders run into a full
+// buffer and wait for the peer.
+func mockTight() *transport {
+	ss, sc := mock.NewStreamPair[Req, Res](1, 1)
+	t := &transport{name: "mock-1-message-buffers", reqCap: 1, resCap: 1, server: ss, client: sc, addr: "localhost:0", stop: func() {}}
+	t.bind()
+	return t
+}
+
+func wsTransport() (*transport, error) { return wsTransportWith("websocket", 5*time.Second, 0) }
+
+// wsIdle is the WebSocket transport with a short per-message write deadline and a handler
+// that stays idle for longer than that before it returns (the property quantifies over
+// arbitrary timing between the two sides).
+func wsIdle() (*transport, error) {
+	return wsTransportWith("websocket-idle-handler", 100*time.Millisecond, 160*time.Millisecond)
+}
+
+func wsTransportWith(name string, writeDeadline, idle time.Duration) (*transport, error) {
 	port, err := xnet.FindOpenPort()
 	if err != nil {
 		return nil, err
 	}
 	addr := address.Newf("localhost:%d", port)
 	app := fiber.New(fiber.Config{})
-	router, err := fhttp.NewRouter(fhttp.RouterConfig{StreamWriteDeadline: 5 * time.Second})
+	router, err := fhttp.NewRouter(fhttp.RouterConfig{StreamWriteDeadline: writeDeadline})
 	if err != nil {
 		return nil, err
 	}
@@ -306,7 +411,7 @@ func wsTransport() (*transport, error) {
 		}
 		time.Sleep(2 * time.Millisecond)
 	}
-	t := &transport{name: "websocket", server: server, client: client, addr: addr, stop: func() { _ = app.Shutdown() }}
+	t := &transport{name: name, idle: idle, server: server, client: client, addr: addr, stop: func() { _ = app.Shutdown() }}
 	t.bind()
 	return t, nil
 }
@@ -437,8 +542,10 @@ func execOrder(t *transport, sc script, order string) (v *viol, hung bool) {
 	if err != nil {
 		return &viol{"stream-open-fails", fmt.Sprintf("Stream(): %v", err)}, false
 	}
-	m := model{big: sc.big}
+	m := model{big: sc.big, reqCap: t.reqCap, resCap: t.resCap}
 	var log []string
+	var pendCli chan error // result of the client's pending Send / CloseSend
+	var pendWhat string
 	srv := sc.server + "x"
 	ci, si := 0, 0
 	ret := retKinds[sc.ret].err
@@ -469,6 +576,13 @@ func execOrder(t *transport, sc script, order string) (v *viol, hung bool) {
 		switch op {
 		case 'S':
 			id := m.sent
+			if e.kind == "pending" {
+				id = m.sent + 1
+				pendCli, pendWhat = make(chan error, 1), fmt.Sprintf("c.Send#%d", id)
+				go func(ch chan error) { ch <- stream.Send(Req{ID: id, Message: payload(id, false)}) }(pendCli)
+				log = append(log, pendWhat+"=issued(buffer full)")
+				return nil
+			}
 			if e.kind != "ok" {
 				id = 99
 			}
@@ -482,6 +596,12 @@ func execOrder(t *transport, sc script, order string) (v *viol, hung bool) {
 				return fail("client-send-result:"+e.kind, "client Send", e, classify(err))
 			}
 		case 'C':
+			if e.kind == "pending" {
+				pendCli, pendWhat = make(chan error, 1), "c.CloseSend"
+				go func(ch chan error) { ch <- stream.CloseSend() }(pendCli)
+				log = append(log, pendWhat+"=issued(buffer full)")
+				return nil
+			}
 			var err error
 			if !timed(func() { err = stream.CloseSend() }) {
 				hung = true
@@ -516,12 +636,24 @@ func execOrder(t *transport, sc script, order string) (v *viol, hung bool) {
 		e := m.step('s', op, ret)
 		cmd := srvCmd{op: op}
 		if op == 's' {
-			cmd.msg = Res{ID: m.rsent, Message: payload(m.rsent, sc.big == 100+m.rsent)}
+			id := m.rsent
+			if e.kind == "pending" {
+				id++
+			}
+			cmd.msg = Res{ID: id, Message: payload(id, sc.big == 100+id)}
 		}
 		if op == 'x' {
 			cmd.ret = ret
 		}
 		var got opResult
+		if e.kind == "pending" {
+			if !timed(func() { r.cmds <- cmd }) {
+				hung = true
+				return &viol{"operation-never-returns:handler-command", "the handler did not take its next command; " + strings.Join(log, " ")}
+			}
+			log = append(log, fmt.Sprintf("h.Send#%d=issued(buffer full)", m.rsent+1))
+			return nil
+		}
 		if !timed(func() { r.cmds <- cmd; got = <-r.results }) {
 			hung = true
 			return &viol{"operation-never-returns:handler-" + string(op) + ":expected-" + e.kind, fmt.Sprintf("handler op %c did not return (documented: %s); %s", op, e, strings.Join(log, " "))}
@@ -548,11 +680,42 @@ func execOrder(t *transport, sc script, order string) (v *viol, hung bool) {
 		}
 		return v
 	}
+	awaitClient := func() *viol {
+		e := m.complete('c')
+		var err error
+		if !timed(func() { err = <-pendCli }) {
+			hung = true
+			return &viol{"operation-never-returns:client-blocked-on-full-buffer", pendWhat + " was issued with the request buffer full and did not return after the handler made room; " + strings.Join(log, " ")}
+		}
+		log = append(log, pendWhat+"="+classify(err))
+		if !matches(e, 0, "", err, false) {
+			return fail("client-blocked-operation-result", pendWhat, e, classify(err))
+		}
+		return nil
+	}
+	awaitServer := func() *viol {
+		e := m.complete('s')
+		var got opResult
+		if !timed(func() { got = <-r.results }) {
+			hung = true
+			return &viol{"operation-never-returns:handler-blocked-on-full-buffer", "handler Send was issued with the response buffer full and did not return after the client made room; " + strings.Join(log, " ")}
+		}
+		log = append(log, fmt.Sprintf("h.Send#%d=%s", m.rsent, classify(got.err)))
+		if got.err != nil {
+			return fail("handler-send-result", "handler Send", e, classify(got.err))
+		}
+		return nil
+	}
 	for _, who := range []byte(order) {
-		if who == 'c' {
+		switch {
+		case who == 'c' && m.pending('c'):
+			v = pcheck(awaitClient())
+		case who == 'c':
 			v = pcheck(clientOp(sc.client[ci], false))
 			ci++
-		} else {
+		case m.pending('s'):
+			v = pcheck(awaitServer())
+		default:
 			v = pcheck(serverOp(srv[si]))
 			si++
 		}
@@ -573,7 +736,11 @@ func execOrder(t *transport, sc script, order string) (v *viol, hung bool) {
 	if !hung {
 		close(r.cmds)
 		if !m.closedSend {
-			_ = stream.CloseSend()
+			if t.reqCap > 0 {
+				go func() { _ = stream.CloseSend() }() // may wait for room that never comes
+			} else {
+				_ = stream.CloseSend()
+			}
 		}
 		select {
 		case <-r.done:
@@ -586,6 +753,8 @@ func execOrder(t *transport, sc script, order string) (v *viol, hung bool) {
 	}
 	return v, hung
 }
+
+var idleLen = 2
 
 func main() {
 	r := vk.New("C14", "exploration")
@@ -601,6 +770,7 @@ func main() {
 	lc, ls := 4, 3
 	if !r.Quick() {
 		lc, ls = 5, 4
+		idleLen = 3
 	}
 	var scripts []script
 	for _, c := range seqs("SCR", lc) {
@@ -623,9 +793,11 @@ func main() {
 		}
 	}
 	mk := map[string]func() (*transport, error){
-		"mock":      func() (*transport, error) { return mockTransport(), nil },
-		"websocket": wsTransport,
-		"grpc":      grpcTransport,
+		"mock":                   func() (*transport, error) { return mockTransport(), nil },
+		"mock-1-message-buffers": func() (*transport, error) { return mockTight(), nil },
+		"websocket":              wsTransport,
+		"websocket-idle-handler": wsIdle,
+		"grpc":                   grpcTransport,
 	}
 	if r.Replay != "" {
 		v, err := vk.LoadReplay(r.Replay)
@@ -654,9 +826,10 @@ func main() {
 	}
 	var mu sync.Mutex
 	execs, infeasible, skipped := map[string]int{}, 0, 0
+	var unconfirmed []string
 	outcomes := map[string]bool{}
 	var wg sync.WaitGroup
-	for _, name := range []string{"mock", "websocket", "grpc"} {
+	for _, name := range []string{"mock", "mock-1-message-buffers", "websocket", "websocket-idle-handler", "grpc"} {
 		for w := 0; w < 4; w++ {
 			wg.Add(1)
 			go func(name string, w int) {
@@ -675,7 +848,15 @@ func main() {
 					if i%4 != w {
 						continue
 					}
-					os := orders(sc)
+					if t.reqCap > 0 && sc.big >= 0 {
+						continue
+					}
+					// the idle handler costs real time per execution: short scripts in which the
+					// handler has answered at least once
+					if t.idle > 0 && (len(sc.client) > idleLen || len(sc.server) > idleLen || !strings.Contains(sc.server, "s") || sc.big >= 0 || sc.ret > 2 && sc.ret != 7) {
+						continue
+					}
+					os := orders(sc, t.reqCap, t.resCap)
 					if len(os) == 0 && name == "mock" {
 						mu.Lock()
 						infeasible++
@@ -700,6 +881,27 @@ func main() {
 								v, hung = execOrder(t, sc, o)
 								opLimit = 30 * time.Second
 								confirmMu.Unlock()
+							}
+						}
+						if v != nil && !hung {
+							// what is reported must fail again: two further executions on a fresh
+							// transport, at least one of which has to show a violation too
+							again := false
+							for k := 0; k < 2 && !again; k++ {
+								if nt, err := mk[name](); err == nil {
+									t.stop()
+									t = nt
+									if v2, _ := execOrder(t, sc, o); v2 != nil {
+										again = true
+										v = v2
+									}
+								}
+							}
+							if !again {
+								mu.Lock()
+								unconfirmed = append(unconfirmed, fmt.Sprintf("%s on %s, script %s, interleaving %s", v.fp, name, sc, o))
+								mu.Unlock()
+								v = nil
 							}
 						}
 						mu.Lock()
@@ -736,6 +938,9 @@ func main() {
 	r.Set("scripts_without_feasible_interleaving", infeasible)
 	r.Set("distinct_nontrivial", len(outcomes))
 	r.Set("exhaustive", skipped == 0)
+	if len(unconfirmed) > 0 {
+		r.Set("unconfirmed_observations", unconfirmed[:min(len(unconfirmed), 10)])
+	}
 	r.Set("rule", fmt.Sprintf("scripts: every client op list over {Send, CloseSend, Receive} up to length %d (at most one CloseSend) x every handler op list over {Receive, Send} up to length %d x handler return in {nil, registered custom error, unregistered error, EOF, StreamClosed, EOF wrapped with a message / a stack, wrapped custom error}, plus 18 scripts with a 300 kB request or response; interleavings: every merge in which each Receive is issued after the message it must return, or after the peer's CloseSend / return, has been issued; each executed on a fresh stream of the mock, WebSocket and gRPC transports; after the script the client drains and calls Receive three more times. distinct_nontrivial = distinct scripts executed", lc, ls))
 	r.Sample(map[string]string{"script": scripts[len(scripts)/2].String()})
 	r.Assume("loopback TCP for WebSocket (fiber) and gRPC; the two sides are sequenced by the harness at operation granularity: timing inside an operation is the Go scheduler's and the kernel's; a Send issued after the handler returned may legitimately return nil or EOF")
